@@ -500,6 +500,8 @@ func main() {
 			length = len(script)
 		}
 		done := []dbx.Op{}
+		var orc *dbx.Oracle
+		var pre *dbx.Dump
 		launchOdds := 6
 		if *profile == "launch" {
 			launchOdds = 1
@@ -530,6 +532,24 @@ func main() {
 						d++ // a zero draw (replacement id 0) is rare, as in F-C02
 					}
 					draws = append(draws, d)
+				}
+				if r.Intn(6) == 0 {
+					// an unlucky random source: runs of draws that are no good as a replica id (zero, or the id of a current member
+					// of one of the shards) with a usable one only every fifth draw - whatever the planner needs a fresh id for, it
+					// has to keep drawing until it gets one
+					sh := uint64(1 + r.Intn(4))
+					for k := range draws {
+						switch k % 5 {
+						case 0, 1:
+							draws[k] = 0
+						case 2:
+							draws[k] = 100*sh + 1 + uint64(r.Intn(3))
+						case 3:
+							draws[k] = 100*sh + 1 + uint64(r.Intn(3))
+						default:
+							draws[k] = 9000 + uint64(r.Intn(900))
+						}
+					}
 				}
 				ctx, cp := dbx.LookupContext(db)
 				if cp || ctx == nil {
@@ -593,13 +613,26 @@ func main() {
 			}
 			run.OpLine(op)
 			done = append(done, op)
+			if orc == nil {
+				// the DB-level oracles run here too: what the scheduler decides on is what the history of reports dictates
+				// (a member it removes as silent really is silent, not merely recorded so)
+				orc = dbx.NewOracle(run, s)
+				orc.Also = map[string][]string{"liveness-record": {"C02", "C12"}, "first-observed": {"C02"}, "view-members": {"C02", "C12"}, "view-version": {"C02"}}
+				pre = dbx.TakeDump(db)
+			}
 			res := dbx.Apply(db, op.ToUpdate())
 			run.Count(op.Op + ":" + map[bool]string{true: "panic", false: "ok"}[res == "panic"])
 			if res == "panic" {
 				run.OutLine("panic")
 				break
 			}
-			run.OutLine(res + " " + dbx.TakeDump(db).Canon())
+			post := dbx.TakeDump(db)
+			if op.Op == "tick" || op.Op == "report" || op.Op == "shard" || op.Op == "reqs" {
+				orc.Ops = done
+				orc.Observe(i, op, res, pre, post, db)
+			}
+			pre = post
+			run.OutLine(res + " " + post.Canon())
 		}
 		if len(done) > 6 {
 			run.Sample(done[len(done)-3:])
